@@ -382,18 +382,21 @@ theorem error_acked_corner (cfg : Cfg) (e : Ev) (he : commandEv e) (ts : List Ta
   · left; rfl
 
 theorem controlStep_hang (cfg : Cfg) (env : Env) (tasks : List Task) (e : Ev) (d : St) (outs : List Outcome) (w : Bool)
-    (hd : dst? e env.st = some d) (hb : bodyFor cfg e (targets (pair tasks outs)) = .hang) :
-    controlStep cfg env tasks e outs w =
+    (ls : List (Option Loss))
+    (hd : dst? e env.st = some d) (hb : bodyFor cfg e (targets (pair tasks (effOuts ls outs))) = .hang) :
+    controlStep cfg env tasks e outs w ls =
       ({ ev := some e, rpc := .hang, state := none, after := some env.st, cmd := [] }, env, tasks) := by
   unfold controlStep
   simp [hd, hb]
 
 theorem controlStep_ok (cfg : Cfg) (env : Env) (tasks : List Task) (e : Ev) (d : St) (outs : List Outcome) (w : Bool)
+    (ls : List (Option Loss))
     (hp : env.pending = []) (hd : dst? e env.st = some d)
-    (hb : bodyFor cfg e (targets (pair tasks outs)) = .ok) :
-    controlStep cfg env tasks e outs w =
-      ({ ev := some e, rpc := .ok, state := some d, after := some d, cmd := cmdIdx tasks },
-       (tryTransition env [] e true false).1, afterCommand tasks outs) := by
+    (hb : bodyFor cfg e (targets (pair tasks (effOuts ls outs))) = .ok) :
+    controlStep cfg env tasks e outs w ls =
+      ({ ev := some e, rpc := .ok, state := some (if critLost ls tasks && w then .ERROR else d),
+         after := some (if critLost ls tasks then .ERROR else d), cmd := cmdIdx tasks, lost := lostIdx ls tasks },
+       (tryTransition env [] e true false).1, loseTasks ls (afterCommand tasks (effOuts ls outs))) := by
   have hf := fsmEvent_nohooks env e d true hp hd
   have hr := controlRpc_ok cfg env [] e true false w hf.2.1
   have hst : (tryTransition env [] e true false).1.st = d := by simpa [tryTransition] using hf.2.2
@@ -401,11 +404,12 @@ theorem controlStep_ok (cfg : Cfg) (env : Env) (tasks : List Task) (e : Ev) (d :
   simp [hd, hb, hr, hst]
 
 theorem controlStep_error (cfg : Cfg) (env : Env) (tasks : List Task) (e : Ev) (d : St) (outs : List Outcome) (w : Bool)
+    (ls : List (Option Loss))
     (hd : dst? e env.st = some d)
-    (hb : bodyFor cfg e (targets (pair tasks outs)) = .error) :
-    ∃ k : Bool, (controlStep cfg env tasks e outs w).1 =
+    (hb : bodyFor cfg e (targets (pair tasks (effOuts ls outs))) = .error) :
+    ∃ k : Bool, (controlStep cfg env tasks e outs w ls).1 =
       { ev := some e, rpc := if k then .ok else .err, state := if k then some .ERROR else none,
-        after := some .ERROR, cmd := cmdIdx tasks } := by
+        after := some .ERROR, cmd := cmdIdx tasks, lost := lostIdx ls tasks } := by
   have hf := fsmEvent_body_fails env [] e false
   have hst := controlRpc_failed_error cfg env [] e false false w hf
   refine ⟨(controlRpc cfg env [] e false false w).2, ?_⟩
@@ -423,20 +427,24 @@ theorem judgeSteps_die (st : St) (tasks : List Task) (outs : List Outcome) (rest
   | nil => rw [judgeSteps_no_obs, judgeSteps_no_obs]
   | cons o os => simp [judgeSteps]
 
-theorem judgeCtl_hang (e : Ev) (d : St) (s : St) :
-    Named (judgeCtl e d [] { ev := some e, rpc := .hang, state := none, after := some s, cmd := [] }) := by
+theorem judgeCtl_hang (e : Ev) (d : St) (s : St) (cl : Bool) :
+    Named (judgeCtl e d [] { ev := some e, rpc := .hang, state := none, after := some s, cmd := [] } cl) := by
   simp only [judgeCtl, allCriticalAcked, List.all_nil, Trans.reqOk, reached, noTargets, List.isEmpty_nil]
-  by_cases h : e = .CONFIGURE <;> simp [h, Named]
+  by_cases h : e = .CONFIGURE <;> cases cl <;> simp [h, Named]
 
-theorem judgeCtl_ok (e : Ev) (d : St) (ts : List Target) (cmd : List Nat) (ha : allCriticalAcked ts = true) :
-    judgeCtl e d ts { ev := some e, rpc := .ok, state := some d, after := some d, cmd := cmd } = none := by
-  simp [judgeCtl, ha, Trans.reqOk]
+/-- A successful request is as demanded: without a lost critical task (destination reported and kept) and with one
+    (OK, the destination or — the watcher first — ERROR in the reply, ERROR afterwards). -/
+theorem judgeCtl_ok (e : Ev) (d : St) (ts : List Target) (cmd lost : List Nat) (cl w : Bool)
+    (ha : allCriticalAcked ts = true) :
+    judgeCtl e d ts { ev := some e, rpc := .ok, state := some (if cl && w then .ERROR else d),
+                      after := some (if cl then .ERROR else d), cmd := cmd, lost := lost } cl = none := by
+  cases cl <;> cases w <;> simp [judgeCtl, ha, Trans.reqOk]
 
-theorem judgeCtl_error (e : Ev) (d : St) (hd : d ≠ .ERROR) (ts : List Target) (cmd : List Nat) (k : Bool)
+theorem judgeCtl_error (e : Ev) (d : St) (hd : d ≠ .ERROR) (ts : List Target) (cmd lost : List Nat) (k cl : Bool)
     (hcorner : allCriticalAcked ts = true → noTargets ts = true ∨ singleNoncritFail ts = true) :
     let o : Obs := { ev := some e, rpc := if k then .ok else .err, state := if k then some .ERROR else none,
-                     after := some .ERROR, cmd := cmd }
-    Named (judgeCtl e d ts o) ∧ reached d o = false := by
+                     after := some .ERROR, cmd := cmd, lost := lost }
+    Named (judgeCtl e d ts o cl) ∧ reached d o = false := by
   intro o
   have hne : St.ERROR ≠ d := fun h => hd h.symm
   have hr : reached d o = false := by
@@ -445,8 +453,9 @@ theorem judgeCtl_error (e : Ev) (d : St) (hd : d ≠ .ERROR) (ts : List Target) 
   cases ha : allCriticalAcked ts
   · cases k <;> simp [judgeCtl, ha, Trans.reqOk, o, hne, reached, Named]
   · rcases hcorner ha with h0 | h1
-    · cases k <;> by_cases hc : e = .CONFIGURE <;> simp [judgeCtl, ha, Trans.reqOk, o, hne, reached, Named, h0, hc]
-    · cases h0 : noTargets ts <;> cases k <;> by_cases hc : e = .CONFIGURE <;>
+    · cases k <;> cases cl <;> by_cases hc : e = .CONFIGURE <;>
+        simp [judgeCtl, ha, Trans.reqOk, o, hne, reached, Named, h0, hc]
+    · cases h0 : noTargets ts <;> cases k <;> cases cl <;> by_cases hc : e = .CONFIGURE <;>
         simp [judgeCtl, ha, Trans.reqOk, o, hne, reached, Named, h0, h1, hc]
 
 theorem unacked_body (cfg : Cfg) (e : Ev) (he : commandEv e) (ts : List Target)
@@ -455,7 +464,8 @@ theorem unacked_body (cfg : Cfg) (e : Ev) (he : commandEv e) (ts : List Target)
   · exact absurd hb (C02_unacked_never_reported cfg e he ts ha)
   · rfl
 
-/-- Along any sequence of requests the model of the code as it was violates the Spec only inside a recorded corner. -/
+/-- Along any sequence of requests (executor / agent losses included) the model of the code as it was violates the
+    Spec only inside a recorded corner. -/
 theorem steps_named (steps : List SStep) : ∀ (env : Env) (tasks : List Task), env.pending = [] →
     Named (judgeSteps env.st tasks steps (runSteps Cfg.legacy env tasks steps)) := by
   induction steps with
@@ -467,7 +477,7 @@ theorem steps_named (steps : List SStep) : ∀ (env : Env) (tasks : List Task), 
       rw [judgeSteps_die]
       simp only [runSteps]
       exact ih env _ hp
-    | ctl e outs w =>
+    | ctl e outs w ls =>
       cases hc : commands e with
       | false =>
         simp only [runSteps]
@@ -480,51 +490,65 @@ theorem steps_named (steps : List SStep) : ∀ (env : Env) (tasks : List Task), 
         split <;> simp [judgeSteps, hc, hd, Named]
       | some d =>
         have hdne := dst_ne_error e he env.st d hd
-        cases hb : bodyFor Cfg.legacy e (targets (pair tasks outs)) with
+        cases hb : bodyFor Cfg.legacy e (targets (pair tasks (effOuts ls outs))) with
         | hang =>
           obtain ⟨_, hts⟩ := bodyFor_hang e _ hb
-          have hcs := controlStep_hang Cfg.legacy env tasks e d outs w hd hb
+          have hcs := controlStep_hang Cfg.legacy env tasks e d outs w ls hd hb
           simp only [runSteps, hcs]
           simp only [show (Rpc.hang = Rpc.ok) = False from by simp, false_and, ↓reduceIte]
           simp only [judgeSteps, hc, hd, hts, Bool.not_true, Bool.false_eq_true, ↓reduceIte]
-          have := judgeCtl_hang e d env.st
-          revert this; generalize judgeCtl e d [] _ = r; intro this
+          have := judgeCtl_hang e d env.st (critLost ls tasks)
+          revert this; generalize judgeCtl e d [] _ _ = r; intro this
           cases r with
           | some h => simpa using this
           | none => simp [reached, Named]
         | ok =>
-          have hcs := controlStep_ok Cfg.legacy env tasks e d outs w hp hd hb
+          have hcs := controlStep_ok Cfg.legacy env tasks e d outs w ls hp hd hb
           have ha := unacked_body Cfg.legacy e he _ hb
           have hf := fsmEvent_nohooks env e d true hp hd
-          have hj := judgeCtl_ok e d (targets (pair tasks outs)) (cmdIdx tasks) ha
+          have hj := judgeCtl_ok e d (targets (pair tasks (effOuts ls outs))) (cmdIdx tasks) (lostIdx ls tasks)
+            (critLost ls tasks) w ha
           simp only [runSteps, hcs]
-          split
-          · simp only [judgeSteps, hc, hd, Bool.not_true, Bool.false_eq_true, ↓reduceIte, hj]
-            simp only [reached, decide_true, Bool.and_self, ↓reduceIte]
-            have := ih (tryTransition env [] e true false).1 (afterCommand tasks outs) hf.1
-            have hst : (tryTransition env [] e true false).1.st = d := by simpa [tryTransition] using hf.2.2
-            rw [hst] at this; exact this
-          · simp only [judgeSteps, hc, hd, Bool.not_true, Bool.false_eq_true, ↓reduceIte, hj]
-            simp only [reached, decide_true, Bool.and_self, ↓reduceIte, judgeSteps_no_obs]
+          cases hcl : critLost ls tasks with
+          | true =>
+            rw [hcl] at hj
+            simp only [Bool.true_eq_false, and_false, ↓reduceIte]
+            simp only [judgeSteps, hc, hd, Bool.not_true, Bool.false_eq_true, ↓reduceIte, hcl, Bool.and_false]
+            simp only [↓reduceIte] at hj
+            rw [hj]
             exact named_none
+          | false =>
+            rw [hcl] at hj
+            simp only [Bool.false_and, Bool.false_eq_true, ↓reduceIte] at hj ⊢
+            split
+            · simp only [judgeSteps, hc, hd, Bool.not_true, Bool.false_eq_true, ↓reduceIte, hcl, hj]
+              simp only [reached, decide_true, Bool.and_self, Bool.not_false, ↓reduceIte]
+              have := ih (tryTransition env [] e true false).1 (loseTasks ls (afterCommand tasks (effOuts ls outs))) hf.1
+              have hst : (tryTransition env [] e true false).1.st = d := by simpa [tryTransition] using hf.2.2
+              rw [hst] at this; exact this
+            · simp only [judgeSteps, hc, hd, Bool.not_true, Bool.false_eq_true, ↓reduceIte, hcl, hj]
+              simp only [reached, decide_true, Bool.and_self, Bool.not_false, ↓reduceIte, judgeSteps_no_obs]
+              exact named_none
         | error =>
-          obtain ⟨k, hk⟩ := controlStep_error Cfg.legacy env tasks e d outs w hd hb
-          have hcorner : allCriticalAcked (targets (pair tasks outs)) = true →
-              noTargets (targets (pair tasks outs)) = true ∨ singleNoncritFail (targets (pair tasks outs)) = true :=
+          obtain ⟨k, hk⟩ := controlStep_error Cfg.legacy env tasks e d outs w ls hd hb
+          have hcorner : allCriticalAcked (targets (pair tasks (effOuts ls outs))) = true →
+              noTargets (targets (pair tasks (effOuts ls outs))) = true ∨
+              singleNoncritFail (targets (pair tasks (effOuts ls outs))) = true :=
             fun ha => error_acked_corner Cfg.legacy e he _ (by rw [hb]; decide) ha
-          have hj := judgeCtl_error e d hdne (targets (pair tasks outs)) (cmdIdx tasks) k hcorner
+          have hj := judgeCtl_error e d hdne (targets (pair tasks (effOuts ls outs))) (cmdIdx tasks) (lostIdx ls tasks) k
+            (critLost ls tasks) hcorner
           simp only [runSteps]
-          have hnot : ¬ ((controlStep Cfg.legacy env tasks e outs w).1.rpc = Rpc.ok ∧
-              (controlStep Cfg.legacy env tasks e outs w).1.state = dst? e env.st ∧ (dst? e env.st).isSome = true) := by
+          have hnot : ¬ ((controlStep Cfg.legacy env tasks e outs w ls).1.rpc = Rpc.ok ∧
+              (controlStep Cfg.legacy env tasks e outs w ls).1.state = dst? e env.st ∧ (dst? e env.st).isSome = true) := by
             rw [hk, hd]; intro h; cases k <;> simp at h
             exact hdne h.symm
           simp only [hnot, false_and, ↓reduceIte]
           simp only [judgeSteps, hc, hd, Bool.not_true, Bool.false_eq_true, ↓reduceIte, hk]
           obtain ⟨hn, hr⟩ := hj
-          revert hn; generalize judgeCtl e d _ _ = r; intro hn
+          revert hn; generalize judgeCtl e d _ _ _ = r; intro hn
           cases r with
           | some h => simpa using hn
-          | none => simp only [hr, Bool.false_eq_true, ↓reduceIte]; exact named_none
+          | none => simp only [hr, Bool.false_and, Bool.false_eq_true, ↓reduceIte]; exact named_none
 
 def tasks0 (wf : Workflow) : List Task := wf.tasks.map (fun t => { critical := t.1, active := t.2 = .ok })
 
@@ -666,10 +690,11 @@ theorem controlRpc_code_err (env : Env) (hooks : List Hook) (e : Ev) (r w : Bool
   simp [fsmEvent_body_fails env hooks e r, tryTransition, Cfg.code]
 
 theorem controlStep_error_code (env : Env) (tasks : List Task) (e : Ev) (d : St) (outs : List Outcome) (w : Bool)
+    (ls : List (Option Loss))
     (hd : dst? e env.st = some d)
-    (hb : bodyFor Cfg.code e (targets (pair tasks outs)) = .error) :
-    (controlStep Cfg.code env tasks e outs w).1 =
-      { ev := some e, rpc := .err, state := none, after := some .ERROR, cmd := cmdIdx tasks } := by
+    (hb : bodyFor Cfg.code e (targets (pair tasks (effOuts ls outs))) = .error) :
+    (controlStep Cfg.code env tasks e outs w ls).1 =
+      { ev := some e, rpc := .err, state := none, after := some .ERROR, cmd := cmdIdx tasks, lost := lostIdx ls tasks } := by
   have hf := fsmEvent_body_fails env [] e false
   have hst := controlRpc_failed_error Cfg.code env [] e false false w hf
   have hr := controlRpc_code_err env [] e false w
@@ -691,7 +716,7 @@ theorem steps_code (steps : List SStep) : ∀ (env : Env) (tasks : List Task), e
       rw [judgeSteps_die]
       simp only [runSteps]
       exact ih env _ hp
-    | ctl e outs w =>
+    | ctl e outs w ls =>
       cases hc : commands e with
       | false =>
         simp only [runSteps]
@@ -704,31 +729,42 @@ theorem steps_code (steps : List SStep) : ∀ (env : Env) (tasks : List Task), e
         split <;> simp [judgeSteps, hc, hd]
       | some d =>
         have hdne := dst_ne_error e he env.st d hd
-        cases hb : bodyFor Cfg.code e (targets (pair tasks outs)) with
+        cases hb : bodyFor Cfg.code e (targets (pair tasks (effOuts ls outs))) with
         | hang => exact absurd hb (bodyFor_code_not_hang _ _)
         | ok =>
-          have hcs := controlStep_ok Cfg.code env tasks e d outs w hp hd hb
-          have ha := (iff_code_ts e he tasks outs).1 hb
+          have hcs := controlStep_ok Cfg.code env tasks e d outs w ls hp hd hb
+          have ha := (iff_code_ts e he tasks (effOuts ls outs)).1 hb
           have hf := fsmEvent_nohooks env e d true hp hd
-          have hj := judgeCtl_ok e d (targets (pair tasks outs)) (cmdIdx tasks) ha
+          have hj := judgeCtl_ok e d (targets (pair tasks (effOuts ls outs))) (cmdIdx tasks) (lostIdx ls tasks)
+            (critLost ls tasks) w ha
           simp only [runSteps, hcs]
-          split
-          · simp only [judgeSteps, hc, hd, Bool.not_true, Bool.false_eq_true, ↓reduceIte, hj]
-            simp only [reached, decide_true, Bool.and_self, ↓reduceIte]
-            have := ih (tryTransition env [] e true false).1 (afterCommand tasks outs) hf.1
-            have hst : (tryTransition env [] e true false).1.st = d := by simpa [tryTransition] using hf.2.2
-            rw [hst] at this; exact this
-          · simp only [judgeSteps, hc, hd, Bool.not_true, Bool.false_eq_true, ↓reduceIte, hj]
-            simp only [reached, decide_true, Bool.and_self, ↓reduceIte, judgeSteps_no_obs]
+          cases hcl : critLost ls tasks with
+          | true =>
+            rw [hcl] at hj
+            simp only [Bool.true_eq_false, and_false, ↓reduceIte]
+            simp only [judgeSteps, hc, hd, Bool.not_true, Bool.false_eq_true, ↓reduceIte, hcl, Bool.and_false]
+            simp only [↓reduceIte] at hj
+            rw [hj]
+          | false =>
+            rw [hcl] at hj
+            simp only [Bool.false_and, Bool.false_eq_true, ↓reduceIte] at hj ⊢
+            split
+            · simp only [judgeSteps, hc, hd, Bool.not_true, Bool.false_eq_true, ↓reduceIte, hcl, hj]
+              simp only [reached, decide_true, Bool.and_self, Bool.not_false, ↓reduceIte]
+              have := ih (tryTransition env [] e true false).1 (loseTasks ls (afterCommand tasks (effOuts ls outs))) hf.1
+              have hst : (tryTransition env [] e true false).1.st = d := by simpa [tryTransition] using hf.2.2
+              rw [hst] at this; exact this
+            · simp only [judgeSteps, hc, hd, Bool.not_true, Bool.false_eq_true, ↓reduceIte, hcl, hj]
+              simp only [reached, decide_true, Bool.and_self, Bool.not_false, ↓reduceIte, judgeSteps_no_obs]
         | error =>
-          have hk := controlStep_error_code env tasks e d outs w hd hb
-          have ha : allCriticalAcked (targets (pair tasks outs)) = false := by
-            cases h : allCriticalAcked (targets (pair tasks outs))
+          have hk := controlStep_error_code env tasks e d outs w ls hd hb
+          have ha : allCriticalAcked (targets (pair tasks (effOuts ls outs))) = false := by
+            cases h : allCriticalAcked (targets (pair tasks (effOuts ls outs)))
             · rfl
-            · have := (iff_code_ts e he tasks outs).2 h; rw [hb] at this; cases this
+            · have := (iff_code_ts e he tasks (effOuts ls outs)).2 h; rw [hb] at this; cases this
           simp only [runSteps]
-          have hnot : ¬ ((controlStep Cfg.code env tasks e outs w).1.rpc = Rpc.ok ∧
-              (controlStep Cfg.code env tasks e outs w).1.state = dst? e env.st ∧ (dst? e env.st).isSome = true) := by
+          have hnot : ¬ ((controlStep Cfg.code env tasks e outs w ls).1.rpc = Rpc.ok ∧
+              (controlStep Cfg.code env tasks e outs w ls).1.state = dst? e env.st ∧ (dst? e env.st).isSome = true) := by
             rw [hk]; simp
           simp only [hnot, false_and, ↓reduceIte]
           simp [judgeSteps, hc, hd, hk, judgeCtl, ha, Trans.reqOk, reached]
@@ -889,6 +925,87 @@ theorem C02_corners_exhaustive (sc : Scenario) : judge sc (run Cfg.code sc) ≠ 
   intro hj
   rcases C02_only_deploy_corners_code sc "-" hj with h | h | h <;> revert h <;> decide
 
+/-! ## executor / agent loss while a command is outstanding
+
+  Mesos may report the executor or the agent of a commanded task lost (FAILURE event) before the last target has
+  answered or timed out. `HandleExecutorFailed` / `HandleAgentFailed` then blank the executor id / agent id of every
+  roster task on it. The response entries are keyed by the target computed BEFORE (agent id, executor id, task id); the
+  classification looks the task up AFTERWARDS — by task id alone (`getTask`). Roster-level model: Model/Transition.lean
+  (`RTask`, `applyLosses`, `classifyR`, `bodyForR`). -/
+
+/-- Tie of the roster-level model to the source (go/ast, regenerated every run): the task behind a failed target is
+    `m.GetTask(k.TaskId.Value)` in both functions and `GetTask` compares task ids only (`Trans.getTask`); the two FAILURE
+    handlers write nothing of a roster task but its executor id / agent id (`Trans.handleExecutorFailed`,
+    `Trans.handleAgentFailed`). A look-up that depends on anything a loss rewrites breaks this theorem. -/
+theorem C02_lookup_is_code :
+    Gen.C02.failedTargetLookupByTaskId = true ∧ Gen.C02.lossOnlyBlanksIds = true := by decide
+
+/-- `GetTask` is blind to FAILURE events: for EVERY roster, EVERY sequence of executor / agent losses and EVERY task id
+    it finds a task with the same critical trait afterwards as before (or none in both). -/
+theorem C02_lookup_invariant_under_loss (L : List LossEv) (r : List RTask) (id : Nat) :
+    (getTask (applyLosses L r) id).map (·.critical) = (getTask r id).map (·.critical) :=
+  getTask_applyLosses L r id
+
+/-- The classification of a command's responses is invariant under executor / agent loss of its targets (or of any
+    other task): for EVERY configuration, roster, sequence of FAILURE events and list of response entries. -/
+theorem C02_classification_invariant_under_loss (cfg : Cfg) (L : List LossEv) (r : List RTask)
+    (es : List (CmdTarget × Bool)) :
+    classifyR cfg (applyLosses L r) es = classifyR cfg r es :=
+  classifyR_applyLosses cfg L r es
+
+/-- …so the body of a transition computed on the roster, with ANY FAILURE events handled while its command is
+    outstanding, depends only on the critical trait and the outcome of each commanded task: it is `bodyFor`. -/
+theorem C02_body_invariant_under_loss (cfg : Cfg) (e : Ev) (r : List RTask) (cs : List (RTask × Outcome))
+    (L : List LossEv) (h : RosterOk r cs) :
+    bodyForR cfg e r cs L = bodyFor cfg e (plainTargets cs) :=
+  bodyForR_eq cfg e r cs L h
+
+theorem targets_allActive (cs : List (RTask × Outcome)) :
+    targets (cs.map (fun c => (({ critical := c.1.critical, active := true } : Task), c.2))) = plainTargets cs := by
+  induction cs with
+  | nil => rfl
+  | cons c cs ih =>
+    simp only [targets, plainTargets, List.map_cons, List.filter_cons, ↓reduceIte] at ih ⊢
+    rw [ih]
+
+/-- The iff of the property holds under executor / agent loss, the code as it is, in full: for every roster (unique task
+    ids), every list of commanded roster tasks with their outcomes and EVERY sequence of FAILURE events handled while
+    the command is outstanding, the body succeeds iff every commanded critical task acknowledged. -/
+theorem C02_iff_code_under_loss (e : Ev) (he : commandEv e) (r : List RTask) (cs : List (RTask × Outcome))
+    (L : List LossEv) (h : RosterOk r cs) :
+    bodyForR Cfg.code e r cs L = .ok ↔ allCriticalAcked (plainTargets cs) = true := by
+  rw [bodyForR_eq Cfg.code e r cs L h]
+  have := C02_iff_code e he (cs.map (fun c => (({ critical := c.1.critical, active := true } : Task), c.2)))
+  have ht := targets_allActive cs
+  rw [ht] at this; exact this
+
+/-- …and for every configuration with the two task-level corners excluded (the code as it was included). -/
+theorem C02_iff_partial_under_loss (cfg : Cfg) (e : Ev) (he : commandEv e) (r : List RTask)
+    (cs : List (RTask × Outcome)) (L : List LossEv) (h : RosterOk r cs)
+    (h0 : noTargets (plainTargets cs) = false) (h1 : singleNoncritFail (plainTargets cs) = false) :
+    bodyForR cfg e r cs L = .ok ↔ allCriticalAcked (plainTargets cs) = true := by
+  rw [bodyForR_eq cfg e r cs L h, bodyFor_ok cfg e he _ h0, classify_acked cfg _ h0 (Or.inl h1)]
+
+/-- A critical task that does not acknowledge fails the transition whatever FAILURE events are handled meanwhile — in
+    particular when it is its own executor or agent that is lost (every configuration). -/
+theorem C02_unacked_never_reported_under_loss (cfg : Cfg) (e : Ev) (he : commandEv e) (r : List RTask)
+    (cs : List (RTask × Outcome)) (L : List LossEv) (h : RosterOk r cs)
+    (hu : allCriticalAcked (plainTargets cs) = false) :
+    bodyForR cfg e r cs L ≠ .ok := by
+  rw [bodyForR_eq cfg e r cs L h]
+  exact C02_unacked_never_reported cfg e he _ hu
+
+/-- What a loss does change: a target acknowledges iff it answers ok AND that reply left before the loss (if any). -/
+theorem C02_ack_under_loss (o : Outcome) (l : Option Loss) :
+    o.under l = .ok ↔ o = .ok ∧ (∀ x, l = some x → x.before = false) := by
+  cases l with
+  | none => simp [Outcome.under]
+  | some x => cases o <;> cases hb : x.before <;> simp [Outcome.under, Outcome.replies, hb]
+
+/-- …and only targets that would have replied are affected: a loss never turns a failure into an acknowledgement. -/
+theorem C02_loss_never_acks (o : Outcome) (l : Option Loss) (h : o ≠ .ok) : o.under l ≠ .ok :=
+  fun hu => h ((C02_ack_under_loss o l).1 hu).1
+
 /-! ## non-vacuity -/
 
 /-- A realistic mix satisfies the hypotheses of the partial theorems: two critical tasks and a failing non-critical one. -/
@@ -906,3 +1023,31 @@ example :
 example : emptyWorkflow { calls := 0, tasks := [(true, .ok), (false, .ok)] } = false ∧
     noncritLaunchFail [(true, .ok), (false, .ok)] = false ∧ earlyRunning [(true, .ok), (false, .ok)] = false ∧
     deployBody [(true, .ok), (false, .ok)] 0 false = .ok := by decide
+
+/-- Executor loss inside a command, on the model of the code as it is: the critical task answers START with an error,
+    its executor is lost while the co-target is still working, the co-target then answers ok — the request fails, the
+    environment ends in ERROR (`err`, no state, ERROR, both commanded, task 0 lost). -/
+example :
+    run Cfg.code { wf := { calls := 0, tasks := [(true, .ok), (false, .ok)] }, configure := [.ok, .ok],
+                   steps := [.ctl .START_ACTIVITY [.errorReplyStaySrc, .ok] false [some ⟨false, false, false⟩, none]] } =
+      [{ ev := none, rpc := .ok, state := some .CONFIGURED, after := some .CONFIGURED, cmd := [0, 1] },
+       { ev := some .START_ACTIVITY, rpc := .err, state := none, after := some .ERROR, cmd := [0, 1], lost := [0] }] := by
+  decide
+
+/-- The invariance has content: the key of the response entry (computed before) is NOT the task's target afterwards —
+    a look-up by the full target would miss the task, the look-up by task id finds it. -/
+example :
+    let r : List RTask := [⟨1, some 10, some 7, true⟩, ⟨2, some 11, some 8, false⟩]
+    let k := (⟨1, some 10, some 7, true⟩ : RTask).target
+    (applyLosses [.executor 7] r).find? (fun t => t.target = k) = none ∧
+    (getTask (applyLosses [.executor 7] r) k.taskId).map (·.critical) = some true ∧
+    RosterOk r [(⟨1, some 10, some 7, true⟩, .errorReplyStaySrc), (⟨2, some 11, some 8, false⟩, .ok)] ∧
+    bodyForR Cfg.code .START_ACTIVITY r [(⟨1, some 10, some 7, true⟩, .errorReplyStaySrc), (⟨2, some 11, some 8, false⟩, .ok)]
+      [.executor 7] = .error := by
+  refine ⟨by decide, by decide, ⟨?_, ?_⟩, by decide⟩
+  · intro t ht t' ht' h
+    simp only [List.mem_cons, List.mem_nil_iff, or_false] at ht ht'
+    rcases ht with rfl | rfl <;> rcases ht' with rfl | rfl <;> simp_all
+  · intro c hc
+    simp only [List.mem_cons, List.mem_nil_iff, or_false] at hc
+    rcases hc with rfl | rfl <;> simp
